@@ -23,6 +23,10 @@ RULE = (
     "every close of a write handle leaves the target either original or complete. evaluations = injected + natural failing runs; "
     "distinct = (target, injection site file:function:line | natural failure class); exhaustive per document over its executed events."
 )
+RULE_ADDENDUM = (
+    'Failpoints: line, call and callee-entry events (calls with argument unpacking raise no CALL event in CPython 3.12); between the first write-mode open and the first write only serialisation / signing calls are faulted; the exception class rotates over 16 classes; natural late failures (a never-signed part nested deeper than the serializer can go); back ends: missing, failing, key that is not ed25519.'
+)
+RULE = RULE + " " + RULE_ADDENDUM
 LIMITS = ["failures during the final write itself and power loss are outside the statement",
           "failpoints are enumerated inside the library's own code; faults inside callees are injected at the call event"]
 ASSUMPTIONS = ["sys.monitoring delivers every LINE/CALL event of library code objects (CPython 3.12)",
